@@ -9,9 +9,9 @@ import (
 
 func init() {
 	register(&propInfo{
-		ID:     "C02",
-		Run:    runC02,
-		MinObl: 10,
+		ID:          "C02",
+		Run:         runC02,
+		MinObl:      10,
 		Explanation: "Decided: R1 every success exit of the code-validate function carries the literal client-id(stored) == client-id(request) and the mismatch exit derives from ErrInvalidGrant; R2 every success exit carries redirect_uri(stored)==\"\" or redirect_uri(stored)==redirect_uri(request), mismatch exit derives from ErrInvalidGrant; R3 ValidateAuthorizeCode returned nil for the very string whose signature was looked up (layer: validate success exit or redeem function before any create); R4 the request's scopes/audience/session are overwritten from the stored request only and every GrantScope/GrantAudience argument in the redeem function is an element of the stored grant (nothing derives from the token request's form); R5 failed attempts do not mutate storage (C01.R4). NOT decided: semantics of differently-encoded redirect URIs, what the application put into the stored session, expiry arithmetic (C07).",
 	})
 }
